@@ -32,16 +32,27 @@ def validated_before_apply(ctx, p):
                  removed_edges=vm)
     # reset only after the validation loop broke on EndRecord: every path to reset passes a
     # LogReader::next call whose result was matched
-    nx = el.call_sites("log::LogReader::<'a>::next")
+    nx = lib.sites_reaching(el, ["log::LogReader::<'a>::next"])          # the loop itself or a helper that runs it
     for r in rs:
         lib.precedes(ctx, p + 'c reset-after-validation-loop', el, nx, [r], 'reset is reached only through the validation loop (LogReader::next)')
         # in the validation loop every Insert* arm calls validate_plan; DropTable arms continue
-    vp = lib.sites_reaching(el, ['column::Column::validate_plan'])
-    ctx.ob(p + 'd three-validation-arms', 'anchor', el.path, 'the validation pass calls Column::validate_plan in three arms', len(vp) == 3, 'sites: %s' % vp)
+    arms = lib.fam_sites(F, el.path, ['column::Column::validate_plan'])
+    ctx.ob(p + 'd three-validation-arms', 'anchor', el.path, 'the validation pass calls Column::validate_plan in three arms (InsertIndex, InsertValue, InsertRefCount)', len(arms) == 3, 'sites: %s' % [(fb.path, s2) for fb, s2 in arms])
     cl = el.call_sites('log::Log::clear_replay_logs')
-    # a failed validate_plan never reaches reset/appliers: error edge -> clear + return
+    # a failed validate_plan never reaches reset/appliers: error edge -> clear + return. Checked where the validation loop lives:
+    # in enact_logs (reaching reset depends on each outcome) and, if the loop was moved to a helper, there too (running on to the
+    # next action depends on each outcome)
+    vp = lib.sites_reaching(el, ['column::Column::validate_plan'])
     for i, s in enumerate(vp):
         lib.result_guards(ctx, p + 'e validation-result-checked #%d' % i, el, [s], rs[0] if rs else 0, 'reaching reset depends on the outcome of each validate_plan call')
+    for hb in lib.family(F, el.path):
+        hn = hb.call_sites("log::LogReader::<'a>::next")
+        if hb is el or hb.kind == 'Closure' or not hn:
+            continue
+        hv = lib.sites_reaching(hb, ['column::Column::validate_plan'])
+        for i, s in enumerate(hv):
+            if hn:
+                lib.result_guards(ctx, p + 'e validation-result-checked %s #%d' % (hb.path, i), hb, [s], hn[0], 'going on to the next action depends on the outcome of each validate_plan call')
     # sequence check
     for r in rs:
         lib.eq_guarded(ctx, p + 'f sequence-guard', el, r, 'the record is applied in replay only if its id equals last_enacted + 1',
@@ -78,17 +89,24 @@ def validated_before_apply(ctx, p):
                         ok = True
             ctx.ob(p + 'm EndRecord-only-if-crc-equal', 'K3-guard', nb.path, 'EndRecord is returned on the equal edge of (stored checksum == computed CRC); mismatch -> Corruption', ok, '')
         # every byte consumed feeds the CRC when validating: update() in read_buf closure and in read()
-    for fn in ("log::LogReader::<'a>::read", "log::LogReader::<'a>::next::{closure#0}"):
-        b = F.body(fn)
-        if b is None:
-            ctx.ob(p + 'n crc-update-anchor %s' % fn, 'anchor', fn, 'anchor exists', False, 'missing body')
+    # every byte consumed feeds the CRC when validating: each read_exact on the log file in a LogReader method (or a closure of
+    # one) is followed on every success path by Hasher::update - except the read of the stored checksum word itself, which is
+    # followed by finalize()
+    nread = 0
+    for b in sorted(F.bodies.values(), key=lambda x: x.path):
+        if not b.path.startswith('log::LogReader'):
             continue
-        val = lib.prune_bool_field(b, '.LogReader.validate', True)
-        if not val:
-            val = lib.prune_bool_upvar(b, 'self.validate', True)
-        ctx.ob(p + 'n0 validate-branch-anchored %s' % fn, 'anchor', fn, 'the read path branches on self.validate', bool(val), '')
-        up = b.call_sites('re:crc32fast::Hasher::update$')
-        lib.must_pass(ctx, p + 'n bytes-fed-to-crc %s' % fn, b, up, 'with validation on, every successful read updates the running CRC', removed_edges=val)
+        rs = [bi for bi, t in b.calls() if bi in b.normal_blocks() and call_matches(t, ['re:Read>::read_exact$', 're:Read>::read$', 'std::io::Read::read_exact'])]
+        if not rs:
+            continue
+        val = lib.prune_bool_field(b, '.LogReader.validate', True) or lib.prune_bool_upvar(b, 'self.validate', True)
+        up = lib.must_sites(b, ['re:crc32fast::Hasher::update$']) + b.call_sites('re:crc32fast::Hasher::finalize$')
+        for r in rs:
+            nread += 1
+            ctx.ob(p + 'n0 validate-branch-anchored %s' % b.path, 'anchor', b.path, 'the read path branches on self.validate', bool(val), '')
+            lib.must_pass(ctx, p + 'n bytes-fed-to-crc %s' % b.path, b, up, 'with validation on, every successful read of log bytes updates the running CRC (or, for the checksum word, finalizes it)',
+                          sources=[r], removed_edges=val)
+    ctx.ob(p + 'n1 log-read-sites', 'anchor', '-', 'LogReader reads the log file in at least two places', nread >= 2, 'found %d' % nread)
 
 
 def idempotent_appliers(ctx, p):
@@ -144,8 +162,8 @@ def replay_before_service(ctx, p):
     ca = lib.must_sites(oi, ['log::Log::clean_logs'])      # direct or through clean_all_logs
     kl = oi.call_sites('log::Log::kill_logs')
     it = lib.sites_reaching(oi, ['column::HashColumn::init_table_data', 'table::ValueTable::init_table_data'])
-    sp = oi.call_sites('re:^std::thread::spawn', 're:thread::Builder.*::spawn')
-    ctx.ob(p + 'a open_inner-anchors', 'anchor', oi.path, 'open_inner has replay / clear / clean / kill / init / 4 spawns', all(len(x) == 1 for x in (rp, cr, ca, kl, it)) and len(sp) == 4,
+    sp = lib.sites_reaching(oi, ['re:^std::thread::spawn', 're:thread::Builder.*::spawn'])      # also `cond.then(|| thread::spawn(..))`
+    ctx.ob(p + 'a open_inner-anchors', 'anchor', oi.path, 'open_inner has replay / clear / clean / kill / init and spawns the workers', all(len(x) >= 1 for x in (rp, cr, ca, kl, it)) and len(sp) >= 1,
            'replay %s clear %s clean %s kill %s init %s spawns %s' % (rp, cr, ca, kl, it, sp))
     chain = [('replay_all_logs', rp), ('clear_replay_logs', cr), ('clean_all_logs', ca), ('Log::kill_logs', kl), ('init_table_data', it)]
     for (n1, a), (n2, b2) in zip(chain, chain[1:]):
